@@ -5163,13 +5163,17 @@ bool SoPlexBase<R>::getBasisInverseTimesVecReal(R* rhs, R* sol, bool unscale)
             assert(index < numRows());
             assert(!_solver.isRowBasic(index));
 
-            x[i] = v[index] - (rowVectorRealInternal(index) * VectorBase<R>(numCols(), y.get_ptr()));
-
             if(adaptScaling)
             {
-               scaleExp = -_scaler->getRowScaleExp(index);
-               x[i] = spxLdexp(x[i], scaleExp);
+               // the row and y live in the scaled space, where the right-hand side of this row is v[index] * 2^scaleExp;
+               // compute the slack there and scale it back
+               scaleExp = _scaler->getRowScaleExp(index);
+               x[i] = spxLdexp(v[index], scaleExp)
+                      - (rowVectorRealInternal(index) * VectorBase<R>(numCols(), y.get_ptr()));
+               x[i] = spxLdexp(x[i], -scaleExp);
             }
+            else
+               x[i] = v[index] - (rowVectorRealInternal(index) * VectorBase<R>(numCols(), y.get_ptr()));
          }
          else
          {
